@@ -87,6 +87,8 @@ type Store struct {
 	Signer int
 	// KeyIndex maps the bytes handed to CommitUsingSpecificKey to a key index
 	KeyIndex func(pem []byte) int
+	// SigFunc renders the signature over payload by the key with that index
+	SigFunc func(payload []byte, signer int) []byte
 
 	Config map[gitstore.ConfigKey]string
 
@@ -760,13 +762,17 @@ func (s *Store) GetTagTarget(tagID githash.Hash) (githash.Hash, error) {
 	return clone(t.Target), nil
 }
 
-// SigPayload / Sig define the modelled signature format: the payload names
-// the object, the signature is {'S', key index} or empty when unsigned.
+// SigPayload is the signed payload of an object: it names the object.
 func SigPayload(id githash.Hash) []byte { return []byte("object " + id.String()) }
 
-func Sig(signer int) []byte {
+// Sig renders the signature of an object by the signer index; the harness
+// installs SigFunc (key table); without it the signature is {'S', index}.
+func (s *Store) sig(payload []byte, signer int) []byte {
 	if signer == Unsigned {
 		return []byte{}
+	}
+	if s.SigFunc != nil {
+		return s.SigFunc(payload, signer)
 	}
 	return []byte{'S', byte(signer)}
 }
@@ -777,10 +783,12 @@ func (s *Store) GetObjectSignature(objectID githash.Hash) ([]byte, []byte, error
 	}
 	defer s.after()
 	if c, ok := s.commits[key(objectID)]; ok {
-		return SigPayload(objectID), Sig(c.Signer), nil
+		p := SigPayload(objectID)
+		return p, s.sig(p, c.Signer), nil
 	}
 	if t, ok := s.tags[key(objectID)]; ok {
-		return SigPayload(objectID), Sig(t.Signer), nil
+		p := SigPayload(objectID)
+		return p, s.sig(p, t.Signer), nil
 	}
 	return nil, nil, ErrNoObject
 }
